@@ -706,15 +706,31 @@ func crossCheck(files []string) (agree, disagree, unknown int) {
 			n = len(other)
 			unknown += len(orig) - len(other)
 		}
+		bad := -1
 		for i := 0; i < n; i++ {
 			switch {
+			case strings.HasPrefix(other[i], "error:"):
+				// not comparable from here on (answers no longer line up)
+				unknown += n - i
+				fmt.Printf("  cross-check: second solver rejected a command of %s: %s\n", filepath.Base(f), other[i])
+				i = n
 			case other[i] == "unknown" || orig[i] == "unknown":
 				unknown++
 			case other[i] == orig[i]:
 				agree++
 			default:
 				disagree++
+				if bad < 0 {
+					bad = i
+				}
 			}
+		}
+		if bad >= 0 {
+			keep := filepath.Join(filepath.Dir(f), fmt.Sprintf("disagree.%s", filepath.Base(f)))
+			if b, err := os.ReadFile(f); err == nil {
+				os.WriteFile(keep, b, 0o644)
+			}
+			fmt.Printf("  cross-check: answer %d of %s differs (recorded %s, second solver %s); transcript kept as %s\n", bad, filepath.Base(f), orig[bad], other[bad], keep)
 		}
 	}
 	return
@@ -737,9 +753,13 @@ func answersOf(bin, file string) []string {
 	var ans []string
 	for _, l := range strings.Split(string(out), "\n") {
 		l = strings.TrimSpace(l)
-		switch l {
-		case "sat", "unsat", "unknown":
+		switch {
+		case l == "sat", l == "unsat", l == "unknown":
 			ans = append(ans, l)
+		case strings.HasPrefix(l, "(error"):
+			// a command the second solver did not accept: whatever it
+			// answers next is not an answer to the recorded query
+			ans = append(ans, "error:"+l)
 		}
 	}
 	return ans
